@@ -216,6 +216,21 @@ Theorem result_is_valid : forall c o omr' gms' o',
 Proof. exact new_version_ok. Qed.
 Print Assumptions result_is_valid.
 
+(* every mutator result is the input itself or versioning.new_version of it with only the two marking
+   properties replaced (set: two such steps).  Props/C07Versioning.v carries C05's theorems over to
+   exactly these calls: the result is strictly later and all other content is kept. *)
+Theorem mutators_via_new_version : forall c o m sels r l o',
+  (add_markings c o m sels = Ok o' \/ remove_markings c o m sels = Ok o' \/ clear_markings c o sels r l = Ok o') ->
+  o' = o \/ exists omr' gms', new_version c o omr' gms' = Ok o'.
+Proof. exact MarkingsC07Ops.mutators_via_new_version. Qed.
+Print Assumptions mutators_via_new_version.
+
+Theorem set_via_new_version : forall c o m sels r l o',
+  set_markings c o m sels r l = Ok o' ->
+  exists o1, via_new_version c o o1 /\ via_new_version c o1 o'.
+Proof. exact MarkingsC07Ops.set_via_new_version. Qed.
+Print Assumptions set_via_new_version.
+
 (* ---- the queries agree with one another ---- *)
 
 Theorem query_agreement_granular : forall c o m sels i d b res,
